@@ -282,9 +282,11 @@ class ImplicitFuncComp(ImplicitComponent):
                 tangents = self._get_tangents(invals, 'fwd', coloring, argnums,
                                               trans=self._get_jac2func_inds(self._inputs,
                                                                             self._outputs))
+                jvps = jac_forward(self._apply_nonlinear_func_jax, argnums, tangents)(*invals)
+                if not isinstance(jvps, (tuple, list)):
+                    jvps = (jvps,)  # a single residual is returned as a bare array
                 j = [np.asarray(a).reshape((shape_to_len(a.shape[:-1]), a.shape[-1]))
-                     for a in jac_forward(self._apply_nonlinear_func_jax, argnums,
-                                          tangents)(*invals)]
+                     for a in jvps]
                 j = coloring._expand_jac(np.vstack(j), 'fwd').toarray()
             else:
                 tangents = self._get_tangents(invals, 'fwd', coloring, argnums)
